@@ -437,6 +437,9 @@ func (f Slice) locate(pp Expr, data any, rest Expr, max int) (locs []Expr) {
 			if len(rest) == 0 { // last one
 				for i := start; i < end; i += step {
 					locs = locateAppendFrag(locs, pp, Nth(i))
+					if 0 < max && max <= len(locs) {
+						break
+					}
 				}
 			} else {
 				cp := append(pp, nil) // place holder
@@ -452,6 +455,9 @@ func (f Slice) locate(pp Expr, data any, rest Expr, max int) (locs []Expr) {
 			if len(rest) == 0 { // last one
 				for i := start; end < i; i += step {
 					locs = locateAppendFrag(locs, pp, Nth(i))
+					if 0 < max && max <= len(locs) {
+						break
+					}
 				}
 			} else {
 				cp := append(pp, nil) // place holder
@@ -473,6 +479,9 @@ func (f Slice) locate(pp Expr, data any, rest Expr, max int) (locs []Expr) {
 			if len(rest) == 0 { // last one
 				for i := start; i < end; i += step {
 					locs = locateAppendFrag(locs, pp, Nth(i))
+					if 0 < max && max <= len(locs) {
+						break
+					}
 				}
 			} else {
 				cp := append(pp, nil) // place holder
@@ -488,6 +497,9 @@ func (f Slice) locate(pp Expr, data any, rest Expr, max int) (locs []Expr) {
 			if len(rest) == 0 { // last one
 				for i := start; end < i; i += step {
 					locs = locateAppendFrag(locs, pp, Nth(i))
+					if 0 < max && max <= len(locs) {
+						break
+					}
 				}
 			} else {
 				cp := append(pp, nil) // place holder
@@ -509,6 +521,9 @@ func (f Slice) locate(pp Expr, data any, rest Expr, max int) (locs []Expr) {
 			if len(rest) == 0 { // last one
 				for i := start; i < end; i += step {
 					locs = locateAppendFrag(locs, pp, Nth(i))
+					if 0 < max && max <= len(locs) {
+						break
+					}
 				}
 			} else {
 				cp := append(pp, nil) // place holder
@@ -524,6 +539,9 @@ func (f Slice) locate(pp Expr, data any, rest Expr, max int) (locs []Expr) {
 			if len(rest) == 0 { // last one
 				for i := start; end < i; i += step {
 					locs = locateAppendFrag(locs, pp, Nth(i))
+					if 0 < max && max <= len(locs) {
+						break
+					}
 				}
 			} else {
 				cp := append(pp, nil) // place holder
